@@ -536,8 +536,24 @@ func TestPropCountMaxInflight(t *testing.T) {
 		pendingG := int32(0)    // global limit of a schema update that no applied answer has followed yet
 		lLow := l               // smallest local limit configured since the last applied answer
 		gMax := g               // largest global limit ever configured in this history
-		lastKind := ""          // "accept" / "refuse": kind of the last applied answer since the last schema update ("" = none)
-		lastLimit := int32(0)   // its limit
+		// the wrapper's own watchdog injects a "timeout" error answer once 4 s pass without a reply of the worker; this
+		// history delivers its answers by hand, so a case that lasts longer (a loaded machine) would meet answers the
+		// model does not know: after 2.5 s the rest of the case is discarded (inconclusive, never a verdict)
+		caseStart := time.Now()
+		expiredNoted := false
+		expired := func() bool {
+			if time.Since(caseStart) < 2500*time.Millisecond {
+				return false
+			}
+			if !expiredNoted {
+				expiredNoted = true
+				sub.Inconclusive()
+			}
+			return true
+		}
+		lastKind := ""        // "accept" / "refuse": kind of the last applied answer since the last schema update ("" = none)
+		lastLimit := int32(0) // its limit
+		overlapPeak := 0      // most requests seen in flight while local and remote ones overlapped (known finding only)
 		sub.Eval()
 		count := func() (loc, rem int) {
 			for _, h := range handles {
@@ -566,13 +582,25 @@ func TestPropCountMaxInflight(t *testing.T) {
 					// measured over a wall-clock window and may stem from a larger global limit configured earlier in the
 					// history (reconfigurations are outside this property's quantifier): the largest limit ever configured bounds it
 					bound = int(gMax)
+					if overlapPeak > bound {
+						// known finding, second face: the peak is metered over both limiters, so an overlap of local and
+						// remote requests earlier in the history (tolerated as the known finding) is what the fallback keeps
+						bound = overlapPeak
+						if loc+rem > int(gMax) {
+							sub.ExcludedByKnownFinding()
+						}
+					}
 				}
 				if loc > 0 && rem > 0 && known {
-					bound = int(g + l)
+					// known finding: the two limiters do not see each other's requests, each keeps its own bound
+					bound += int(l)
 					sub.ExcludedByKnownFinding()
+					if loc+rem > overlapPeak && loc+rem <= bound {
+						overlapPeak = loc + rem
+					}
 				}
 				if loc+rem > bound {
-					t.Fatalf("%d requests in flight (%d local, %d remote) exceed the global limit %d\ntrace: %s", loc+rem, loc, rem, bound, trace)
+					t.Fatalf("%d requests in flight (%d local, %d remote) exceed the limit in force %d\ntrace: %s", loc+rem, loc, rem, bound, trace)
 				}
 				if !r && loc > int(l) {
 					t.Fatalf("%d requests admitted by the local limiter exceed the local limit %d\ntrace: %s", loc, l, trace)
@@ -582,11 +610,17 @@ func TestPropCountMaxInflight(t *testing.T) {
 		}
 		t.Repeat(map[string]func(*rapid.T){
 			"ready": func(t *rapid.T) {
+				if expired() {
+					return
+				}
 				v := rapid.Bool().Draw(t, "ready")
 				srv.cs.ready = v
 				trace += fmt.Sprintf("ready=%v;", v)
 			},
 			"answer": func(t *rapid.T) {
+				if expired() {
+					return
+				}
 				res := &proxyv1alpha1.RateLimitAcquireResult{FlowControl: "s"}
 				kind := rapid.IntRange(0, 9).Draw(t, "kind")
 				switch {
@@ -645,8 +679,16 @@ func TestPropCountMaxInflight(t *testing.T) {
 					}
 				}
 			},
-			"acquire": func(t *rapid.T) { acquire(t) },
+			"acquire": func(t *rapid.T) {
+				if expired() {
+					return
+				}
+				acquire(t)
+			},
 			"schemaUpdate": func(t *rapid.T) {
+				if expired() {
+					return
+				}
 				// the configured limits change and one reconcile round hands them to the remote wrapper (also while
 				// the server is failing); the wrapper re-clamps at the next applied answer, so the new global limit is
 				// demanded from then on; requests admitted before the update are drained first
@@ -679,6 +721,9 @@ func TestPropCountMaxInflight(t *testing.T) {
 				}
 			},
 			"release": func(t *rapid.T) {
+				if expired() {
+					return
+				}
 				if len(handles) == 0 {
 					t.Skip("nothing in flight")
 				}
@@ -688,6 +733,9 @@ func TestPropCountMaxInflight(t *testing.T) {
 				trace += "rel;"
 			},
 			"drainProbe": func(t *rapid.T) {
+				if expired() {
+					return
+				}
 				for _, h := range handles {
 					h.fc.Release()
 				}
@@ -730,6 +778,9 @@ func TestPropCountMaxInflight(t *testing.T) {
 				handles = nil
 			},
 			"errorProbe": func(t *rapid.T) {
+				if expired() {
+					return
+				}
 				// deliver an error answer, then probe: the local limit must be in force, not none
 				if !srv.cs.ready {
 					t.Skip("not in remote mode")
@@ -742,15 +793,19 @@ func TestPropCountMaxInflight(t *testing.T) {
 				res := &proxyv1alpha1.RateLimitAcquireResult{FlowControl: "s", Error: "limiter server unreachable"}
 				cache.FlowControl().SetLimit(remote.VerifNewAcquireResult(&proxyv1alpha1.RateLimitAcquireRequest{FlowControl: "s"}, res, reqTime))
 				errorMode = true
+				hi := int(gMax)
+				if overlapPeak > hi {
+					hi = overlapPeak // see acquire: the metered peak includes a tolerated overlap
+				}
 				n := 0
 				for acquire(t) {
 					n++
-					if n > int(gMax)+2 {
+					if n > hi+2 {
 						break
 					}
 				}
 				trace += fmt.Sprintf("errorProbe=%d;", n)
-				if n < int(lLow) || n > int(gMax) {
+				if n < int(lLow) || n > hi {
 					t.Fatalf("after an error answer of the limiter server %d requests are admitted from empty; expected between the local limit %d and the global limit %d\ntrace: %s", n, lLow, gMax, trace)
 				}
 				for _, h := range handles {
